@@ -449,3 +449,31 @@ def is_fn_param(body, t, idx):
             return False
         return o is not None and o[0] == "param" and o[1] == idx and o[2].kind != "closure"
     return False
+
+
+def int_affine(body, op, depth=0):
+    """(Trace of the base, constant k) for integer / SeqNr expressions of the form base + k or base - k, written with the built-in
+    operators (AddWithOverflow ...) or the SeqNr Add/Sub impls; k = 0 for anything else"""
+    t = trace(body, op)
+    if depth < 6 and not [f for f in t.fields if not f.startswith("tuple.")]:
+        if t.kind == "rv" and t.root[1].rv.kind == "bin" and (not t.fields or t.fields == ["tuple.0"]):
+            rv = t.root[1].rv
+            a, b_ = rv.ops
+            if rv.op in ADD_OPS and b_.kind == "const" and isinstance(b_.scalar, int):
+                bt, k = int_affine(body, a, depth + 1)
+                return bt, k + b_.scalar
+            if rv.op in ADD_OPS and a.kind == "const" and isinstance(a.scalar, int):
+                bt, k = int_affine(body, b_, depth + 1)
+                return bt, k + a.scalar
+            if rv.op in SUB_OPS and b_.kind == "const" and isinstance(b_.scalar, int):
+                bt, k = int_affine(body, a, depth + 1)
+                return bt, k - b_.scalar
+        if t.kind == "call" and not t.fields:
+            c = t.root[1]
+            if call_matches(c, ("Add::add",)) and c.args[1].kind == "const" and isinstance(c.args[1].scalar, int):
+                bt, k = int_affine(body, c.args[0], depth + 1)
+                return bt, k + c.args[1].scalar
+            if call_matches(c, ("Sub::sub",)) and c.args[1].kind == "const" and isinstance(c.args[1].scalar, int):
+                bt, k = int_affine(body, c.args[0], depth + 1)
+                return bt, k - c.args[1].scalar
+    return t, 0
